@@ -154,6 +154,14 @@ impl UnitIdentifier {
     }
 }
 
+#[cfg(feature = "verif")]
+impl UnitIdentifier {
+    /// Verification hook: the direct definition of this unit (base, or factor + defining unit).
+    pub fn verif_kind(&self) -> &UnitKind {
+        &self.kind
+    }
+}
+
 impl PartialOrd for UnitIdentifier {
     fn partial_cmp(&self, other: &Self) -> Option<std::cmp::Ordering> {
         Some(self.cmp(other))
